@@ -295,6 +295,24 @@ def main(tier, seed):
             if not sub or any(v not in got for v in must) or len(got) != len(got_idx):
                 run.violation({"site": "p.pressure selection", "observed": "not exactly the stored points of the branch inside the limits, in order",
                                "branch": row["branch"]}, {"pressures": p, "marks": marks, "limits": [lo, hi], "returned": got, "must": must, "may": may})
+            # the same selection on the loading column and on an extra column (limits are then values of that column)
+            if row["lo"] == -1 and row["hi"] == -1:
+                for name, getter in (("p.loading selection", lambda: iso.loading(branch=b)), ):
+                    got_l = [float(v) for v in getter()]
+                    want_l = [float(load[i - 1]) for i in row["must"]]
+                    if got_l != want_l:
+                        run.violation({"site": name, "observed": "branch selection does not return the stored points of the branch in order", "branch": row["branch"]},
+                                      {"pressures": p, "marks": marks, "returned": got_l, "expected": want_l})
+        # limits on loading values: loading_i = 10*(i+1) + p_i is increasing in i, so a window of loadings is a window of positions
+        for lo_i in range(len(p)):
+            for hi_i in range(lo_i, len(p)):
+                lo_v, hi_v = load[lo_i] - 0.5, load[hi_i] + 0.5
+                got_l = [float(v) for v in iso.loading(limits=(lo_v, hi_v))]
+                want_l = [float(v) for v in load[lo_i:hi_i + 1]]
+                run.count(("select-loading", tuple(p), lo_i, hi_i))
+                if got_l != want_l:
+                    run.violation({"site": "p.loading selection", "observed": "limits on loading do not select exactly the points inside them"},
+                                  {"loadings": load, "limits": [lo_v, hi_v], "returned": got_l, "expected": want_l})
     run.set(selection_sequences=len(sel_recs))
 
     # ---- C3. interpolation: exact rational expectations
@@ -338,6 +356,27 @@ def main(tier, seed):
                 elif abs(got - want) > 1e-12 * max(1.0, abs(want)):
                     run.violation({"site": "p." + direction, "observed": "interpolated value off the straight line between neighbours",
                                    "at_measured_point": q.denominator == 1 and int(q) in kx}, {"grid": [kx, ky], "q": str(q), "returned": got, "expected": want})
+    # other interpolation kinds: must coincide with the data at measured points and refuse outside the range
+    for kind in ("nearest", "zero", "slinear", "quadratic", "cubic"):
+        xs = [1.0, 2.0, 3.5, 5.0, 7.0, 8.0]
+        ys = [1.0, 2.5, 3.0, 4.5, 5.0, 6.5]
+        for direction, kx, ky in (("loading_at", xs, ys), ("pressure_at", ys, xs)):
+            iso = pygaps.PointIsotherm(pressure=xs, loading=ys, material="verif_mat", adsorbate="nitrogen", temperature=77, **py_labels(state()))
+            for x, y in zip(kx, ky):
+                run.count(("interp-kind", kind, direction, x))
+                try:
+                    got = float(getattr(iso, direction)(x, interpolation_type=kind))
+                except Exception as e:
+                    run.violation({"site": "p." + direction, "observed": "refused at a measured point", "kind": kind, "exception": exc_class(e)}, {"x": x})
+                    continue
+                if abs(got - y) > 1e-9 * max(1.0, abs(y)):
+                    run.violation({"site": "p." + direction, "observed": "interpolant does not pass through the measured point", "kind": kind}, {"x": x, "returned": got, "expected": y})
+            for x in (kx[0] - 0.5, kx[-1] + 0.5):
+                try:
+                    got = getattr(iso, direction)(x, interpolation_type=kind)
+                    run.violation({"site": "p." + direction, "observed": "value returned outside the measured range without a fill rule", "kind": kind}, {"x": x, "returned": float(got)})
+                except Exception:
+                    pass
     run.set(interpolation_grids=len(irecs), exhaustive=False,
             rule="accessor calls: 10 accessors x stored representations (" + ("all 513 loading x material + 10 pressure" if thorough else "48 covering loading x material + 10 pressure")
                  + ") x argument patterns (omitted / valid / wrong-kind / unknown per position; seeded " + str(per_state) + " per state); branch guessing: every pressure sequence of length <= "
